@@ -1,6 +1,7 @@
 package c20
 
 import (
+	"runtime/debug"
 	"bytes"
 	"context"
 	"encoding/binary"
@@ -526,7 +527,7 @@ func childHostile(rec *rec, seed uint64, batch, start, count int, hangProbe bool
 				defer func() {
 					if p := recover(); p != nil { // generator trouble is the monitor's, not the application's
 						rec.Count("generator_panics", 1)
-						rec.Note("generator panic in class %s: %v", class, p)
+						rec.Note("generator panic in class %s: %v\n%s", class, p, trunc(string(debug.Stack()), 1800))
 						it.Bytes = r.Bytes(10)
 					}
 				}()
@@ -557,7 +558,7 @@ func childHostile(rec *rec, seed uint64, batch, start, count int, hangProbe bool
 				defer func() {
 					if p := recover(); p != nil {
 						rec.Count("generator_panics", 1)
-						rec.Note("generator panic in class %s: %v", class, p)
+						rec.Note("generator panic in class %s: %v\n%s", class, p, trunc(string(debug.Stack()), 1800))
 						q = &hquery{Class: class, Path: "/", Data: nil}
 					}
 				}()
